@@ -73,4 +73,30 @@ CLAIMED.update({
     },
 })
 
+CLAIMED.update({
+    'C09': {
+        'text': 'Exception-effect analysis over the resolved call graph (46+ functions) of both searches and the constructor: every explicit '
+                'raise is ValueError; list pop/first/last element only under an emptiness guard; every division whose operands are both Python '
+                'numbers (interprocedural numeric-kind analysis) has a denominator with a proved positive lower bound (validated parameter '
+                'domains, construction facts, dominating guards, all call sites); the geo index is re-installed on every access; structural '
+                'termination argument for the greedy loop (guard = disjunction of branch conditions, counter incremented on every path, '
+                'matching repeats only on strict improvement) and only finite for-loops elsewhere.',
+        'design_ref': 'DESIGN.md section 4, C09',
+        'note': 'Not decided: exceptions raised inside NumPy/pandas/SciPy for exotic data (NaN panels, object dtype), None-dereference of '
+                'diagnostics outside the stated precondition (window >= n_test+3 non-constant points), recursion/memory limits.' + TB,
+        'technique': 'exception-effect analysis on the call graph with abstract kinds, lower-bound facts and dominating guards; loop-variant check',
+    },
+    'C10': {
+        'text': 'Who-may-write analysis for every call history: all attribute/item stores, deletes and mutator calls of TBRMatchedMarkets, '
+                'TBRMMData, TBRMMDiagnostics, TBRMMScore, TBRMMDesign and HeapDict are collected with receivers expanded through aliases; no '
+                'site writes the parameter object; query methods write nothing self-reachable except the geo-index install, which happens on '
+                'every path and depends only on construction-time state; retrieval does not modify retained designs; each search allocates, '
+                'fills and installs its own heap; the input frame is copied before it is edited.',
+        'design_ref': 'DESIGN.md section 4, C10',
+        'note': 'Not decided: equality of answers between an aged and a fresh object beyond what write-freedom implies; global NumPy RNG '
+                'consumption by greedy_search (does not reach an output); two TBRMatchedMarkets objects sharing one TBRMMData.' + TB,
+        'technique': 'effect/ownership analysis with alias expansion (who-may-write rules)',
+    },
+})
+
 NOT_APPLICABLE = {}
